@@ -71,6 +71,18 @@ CHECKS = {
         text="For every flow of every generated program, every shipped .co file and every program embedded in tests/v2_x, TLC explores every path a head can take through the compiled primitive elements exactly as `slide` moves it and reports unexpanded composites, missing / out-of-range labels, merges without fork, failure-handler underflow, scopes opened twice or left open. Exhaustive per flow.",
         note="trusted: syntactic exporter (harness/colang2.export_element); non-literal goto conditions are two-way branches (over-approximation); the compiler itself is not modelled - its output is the model",
         design_ref="6/C12"),
+    "C13": dict(
+        category="exploration", engine="Layout",
+        technique="TLA+ input-space model (Layout: offside-rule stack machine + layout edit actions, model-checked for block-structure preservation; Loader: outcome automaton) whose TLC-emitted edit scripts are replayed through the real parse_colang_file on generated and shipped .co files; character-level mutations / truncations / token soups loaded through RailsConfig.from_path under a watchdog; all observations judged by TLC (Judge_Parse)",
+        text="Every edit script of <= 2 (thorough 3) neutral layout edits (blank lines, trailing whitespace, 2.x end-of-line comments, indentation scaling) on the line abstraction of 132 generated programs and every shipped .co file that parses (both Colang versions), compared modulo source positions; every single-character deletion / insertion of 14 structural symbols / truncation of seed programs plus token soups must load or raise the Colang parsing error naming the file within 10 s. Systematic spec-driven enumeration; the Lark grammar and the 1.0 parser are not modelled.",
+        note="trusted: the driver's conservative line classifier (where an edit is neutral), comparison modulo _source/_source_mapping/source_code and whitespace outside quotes in 2.x expression text, alarm-based hang detection; trailing TAB in 2.x is recorded but not judged",
+        design_ref="6/C13"),
+    "C14": dict(
+        category="model_checking", engine="V1Flow",
+        technique="TLA+ small-step semantics of structured Colang 1.0 flows over the source AST (V1Flow), explored by TLC over all event histories of each program; every history replayed through flows.compute_next_steps (runtime loop emulated) and through RuntimeV1_0.generate_events of a real LLMRails; recorded decisions judged by TLC (Judge_V1Flow); every history run twice on the same instance (history-only dependence)",
+        text="Exhaustive over histories <= 6/8 events (all action results, every leave point) for each of 420 / 6000 generated programs (user/bot/set/if/else/while/break/continue/do/execute/when) plus a fixed corpus; only positions where the history still follows a flow are judged. The program universe is a seeded sample of the grammar.",
+        note="trusted: progs1.render (AST to Colang source), the runtime-loop emulation and event projection in p_C14.py, V1Flow.tla as the reading of 'ordinary structured program' (global context, None for unset variables); nothing judged after a flow is left / finished / an expression error",
+        design_ref="6/C14"),
     "C15": dict(
         category="model_checking", engine="SharedInstance",
         technique="PlusCal/TLA+ spec of N requests on one LLMRails (LLMParams enter/call/exit sections with yields at the awaits, history cache with the real lossy key function) model-checked with TLC; TLC-emitted turn orders + an exhaustive virtual-time schedule grid replayed on one real LLMRails; recorded traces validated and judged by TLC (Trace_Shared) against alone-run oracles",
